@@ -187,10 +187,13 @@ impl Model for M {
         }
       }
       let (a, b) = p.armed();
-      if a {
+      // a round lets every timer that is armed at its beginning expire once (timers stack: every NACK arms one,
+      // and the leftover ones expire without sending anything); what they re-arm waits for the next round
+      let (na, nb) = p.armed_counts();
+      for _ in 0..na {
         p.repair();
       }
-      if b {
+      for _ in 0..nb {
         p.repair_frags();
       }
       p.hb_tick();
